@@ -104,6 +104,45 @@ def uint7(b, p):
     raise Malformed("uint7 too long")
 
 
+class _RefView:
+    """A reference of the sidecar: verbatim ("seq") or sparse ("length", "fill", "patches" = [[offset, bases], ...])."""
+
+    def __init__(self, ref):
+        self.ref = ref
+
+    def __len__(self):
+        return len(self.ref["seq"]) if "seq" in self.ref else self.ref["length"]
+
+    def md5(self, start, span):
+        h = hashlib.md5()
+        if "seq" in self.ref:
+            h.update(self.ref["seq"][start:start + span].upper().encode())
+            return h.hexdigest()
+        fill = self.ref["fill"].upper().encode()
+        pos = start
+        end = start + span
+        for off, bases in sorted(self.ref["patches"]):
+            if off + len(bases) <= pos or off >= end:
+                continue
+            if off > pos:
+                _update_fill(h, fill, off - pos)
+                pos = off
+            part = bases[pos - off:end - off]
+            h.update(part.upper().encode())
+            pos += len(part)
+        if pos < end:
+            _update_fill(h, fill, end - pos)
+        return h.hexdigest()
+
+
+def _update_fill(h, fill, n):
+    chunk = fill * (1 << 20)
+    while n > 0:
+        k = min(n, len(chunk))
+        h.update(chunk[:k])
+        n -= k
+
+
 def parse_block(b, p, st, fail, where):
     start = p
     if p + 2 > len(b):
@@ -376,7 +415,8 @@ def _walk(b, side, st, fail, geometry):
                     if h["ref"] >= len(refs):
                         fail("slice:reference-id", f"{swhere}: reference id {h['ref']} out of range")
                     else:
-                        seq = refs[h["ref"]]["seq"]
+                        ref = refs[h["ref"]]
+                        seq = _RefView(ref)
                         if h["span"] < 1:
                             # one diagnosis for a mapped slice that claims to cover nothing
                             h["zero_span"] = True
@@ -384,7 +424,7 @@ def _walk(b, side, st, fail, geometry):
                         elif h["start"] < 1 or h["start"] - 1 + h["span"] > len(seq):
                             fail("slice:span-within-reference", f"{swhere}: start {h['start']} span {h['span']} exceed reference length {len(seq)}")
                         else:
-                            want = hashlib.md5(seq[h["start"] - 1:h["start"] - 1 + h["span"]].upper().encode()).hexdigest()
+                            want = seq.md5(h["start"] - 1, h["span"])
                             if h["md5"] != want:
                                 fail("slice:reference-md5", f"{swhere}: stored {h['md5']}, md5(reference[{h['start']}..{h['start'] + h['span'] - 1}]) = {want}")
             elif h["ref"] < 0:
